@@ -37,7 +37,18 @@ pub struct FCase {
   /// Modification times (seconds) set explicitly after establishing s1 / s2.
   pub t1: u32,
   pub t2: u32,
+  /// Sub-second parts (index into NANOS) of the two modification times.
+  #[serde(default)]
+  pub n1: u8,
+  #[serde(default)]
+  pub n2: u8,
 }
+
+/// Sub-second parts used for explicitly set modification times (whole seconds, just above, middle, just below the next).
+pub const NANOS: [u32; 5] = [0, 0, 1, 500_000_000, 999_999_999];
+fn ft(sec: u32, n: u8) -> FileTime { FileTime::from_unix_time(1_600_000_000 + sec as i64, NANOS[n as usize % NANOS.len()]) }
+/// The modification time the filesystem actually stored (granularity of this filesystem included).
+fn stored_mtime(path: &Path) -> Option<(i64, u32)> { fs::metadata(path).ok().map(|m| { let t = FileTime::from_last_modification_time(&m); (t.unix_seconds(), t.nanoseconds()) }) }
 
 fn content(len: u32, seed: u8) -> Vec<u8> {
   let mut x = (seed as u32).wrapping_mul(2654435761u32).wrapping_add(12345);
@@ -50,7 +61,7 @@ fn clear(path: &Path) {
   }
 }
 
-fn establish(path: &Path, s: &PState, mtime: u32) -> std::io::Result<()> {
+fn establish(path: &Path, s: &PState, mtime: FileTime) -> std::io::Result<()> {
   clear(path);
   match s {
     PState::Absent => {}
@@ -60,7 +71,7 @@ fn establish(path: &Path, s: &PState, mtime: u32) -> std::io::Result<()> {
       for n in names { fs::write(path.join(n), b"x")?; }
     }
   }
-  if !matches!(s, PState::Absent) { filetime::set_file_mtime(path, FileTime::from_unix_time(1_600_000_000 + mtime as i64, 0))?; }
+  if !matches!(s, PState::Absent) { filetime::set_file_mtime(path, mtime)?; }
   Ok(())
 }
 
@@ -93,7 +104,7 @@ where C::Stamp: PartialEq + std::fmt::Debug, C::Error: std::fmt::Debug {
   // --- s1, established through the resource's own writer where possible (files), so that stamp_writer is exercised.
   if let PState::File { len, seed } = &case.s1 {
     // start from a different previous state to see truncation
-    establish(path, &PState::File { len: len + 7, seed: seed.wrapping_add(1) }, 0).map_err(io)?;
+    establish(path, &PState::File { len: len + 7, seed: seed.wrapping_add(1) }, ft(0, 0)).map_err(io)?;
     let mut w = path.write(st.state()).map_err(|e| Failure::new(format!("PathBuf::write on an existing file failed: {:?}", e)))?;
     let l0 = w.metadata().map_err(io)?.len();
     if l0 != 0 { return Err(Failure::new(format!("PathBuf::write did not truncate the existing file (length {} before writing)", l0))); }
@@ -106,10 +117,10 @@ where C::Stamp: PartialEq + std::fmt::Debug, C::Error: std::fmt::Debug {
     if s_w != s_p || s_r != s_p {
       return Err(Failure::new(format!("stamp routes disagree on a just-written file of {} bytes: path {:?}, reader {:?}, writer {:?}", len, s_p, s_r, s_w)));
     }
-    filetime::set_file_mtime(path, FileTime::from_unix_time(1_600_000_000 + case.t1 as i64, 0)).map_err(io)?;
+    filetime::set_file_mtime(path, ft(case.t1, case.n1)).map_err(io)?;
     stats.class("stamp_writer_route_exercised");
   } else {
-    establish(path, &case.s1, case.t1).map_err(io)?;
+    establish(path, &case.s1, ft(case.t1, case.n1)).map_err(io)?;
     if matches!(case.s1, PState::Absent) {
       // Writing to an absent path creates the file; removing it again before stamp_writer must give the absent stamp.
       let w = path.write(st.state()).map_err(|e| Failure::new(format!("PathBuf::write on an absent path failed: {:?}", e)))?;
@@ -124,7 +135,7 @@ where C::Stamp: PartialEq + std::fmt::Debug, C::Error: std::fmt::Debug {
       if path.write(st.state()).is_ok() { return Err(Failure::new("PathBuf::write succeeded on a directory".to_string())); }
       let after: Vec<_> = fs::read_dir(path).map_err(io)?.filter_map(|e| e.ok()).map(|e| e.file_name()).collect();
       if !path.is_dir() || before.len() != after.len() { return Err(Failure::new("PathBuf::write on a directory modified it".to_string())); }
-      filetime::set_file_mtime(path, FileTime::from_unix_time(1_600_000_000 + case.t1 as i64, 0)).map_err(io)?;
+      filetime::set_file_mtime(path, ft(case.t1, case.n1)).map_err(io)?;
     }
   }
   // --- stamps in s1
@@ -150,13 +161,16 @@ where C::Stamp: PartialEq + std::fmt::Debug, C::Error: std::fmt::Debug {
       Some(x) => return Err(Failure::new(format!("untouched path reported inconsistent: {:?}", x))),
     }
   }
-  establish(path, &case.s2, case.t2).map_err(io)?;
+  let m1 = stored_mtime(path);
+  establish(path, &case.s2, ft(case.t2, case.n2)).map_err(io)?;
+  let m2 = stored_mtime(path);
+  if m1.is_some() && m2.is_some() && m1 != m2 && m1.map(|x| x.0) == m2.map(|x| x.0) { stats.class("mtimes_differ_within_one_second"); }
   let got = c.check(path, st.state(), &s_p).map_err(dbg)?.is_some();
   let ex1 = !matches!(case.s1, PState::Absent);
   let ex2 = !matches!(case.s2, PState::Absent);
   let expected: Option<bool> = match case.ck {
     FCk::Exists => Some(ex1 != ex2),
-    FCk::Modified => Some(ex1 != ex2 || (ex1 && ex2 && case.t1 != case.t2)),
+    FCk::Modified => Some(ex1 != ex2 || (ex1 && ex2 && m1 != m2)),
     FCk::Hash => match (&case.s1, &case.s2) {
       (PState::Absent, PState::Absent) => Some(false),
       (PState::Absent, _) | (_, PState::Absent) => Some(true),
@@ -190,7 +204,7 @@ pub fn check(case: &FCase, stats: &mut Stats) -> CheckResult {
   r?;
   // Through a real task: Context::read with the hash checker hands the task a reader positioned at the start.
   if let PState::File { len, seed } = &case.s1 {
-    if establish(&path, &case.s1, case.t1).is_ok() {
+    if establish(&path, &case.s1, ft(case.t1, case.n1)).is_ok() {
       let mut pie = Pie::default();
       let out = pie.new_session().require(&ReadAll(path.clone()));
       match out {
@@ -237,8 +251,8 @@ fn resplit(names: &[String], sel: u16, rev: bool) -> Vec<String> {
 }
 
 pub fn strategy() -> impl Strategy<Value=FCase> {
-  (pstate(), pstate(), 0u32..10, prop_oneof![Just(FCk::Exists), Just(FCk::Modified), Just(FCk::Hash), Just(FCk::Hash)], 0u32..3, 0u32..3, any::<u16>(), any::<bool>(), 0u8..4)
-    .prop_map(|(s1, s2, touch, ck, t1, t2, sel, rev, derive)| {
+  (pstate(), pstate(), 0u32..10, prop_oneof![Just(FCk::Exists), Just(FCk::Modified), Just(FCk::Modified), Just(FCk::Hash), Just(FCk::Hash)], 0u32..3, 0u32..3, any::<u16>(), any::<bool>(), 0u8..4, (0u8..5, 0u8..5))
+    .prop_map(|(s1, s2, touch, ck, t1, t2, sel, rev, derive, (n1, n2))| {
       // A quarter of the directory cases check a re-split listing against the original.
       let s2 = match (&s1, derive) {
         (PState::Dir { names }, 0) if !names.is_empty() => PState::Dir { names: resplit(names, sel, rev) },
@@ -247,7 +261,10 @@ pub fn strategy() -> impl Strategy<Value=FCase> {
         _ => s2,
       };
       let t2 = if derive == 0 && rev { t1 } else { t2 };
-      FCase { s1, s2, touch: touch > 0, ck, t1, t2 }
+      // Half of the modified-time cases stay within one second (sub-second parts differ or not).
+      let t2 = if ck == FCk::Modified && sel % 2 == 1 { t1 } else { t2 };
+      let n2 = if derive == 0 && rev && ck != FCk::Modified { n1 } else { n2 };
+      FCase { s1, s2, touch: touch > 0, ck, t1, t2, n1, n2 }
     })
 }
 
@@ -260,6 +277,8 @@ pub struct FStep {
   /// `None` = leave the path untouched in this step.
   pub to: Option<PState>,
   pub mtime: u32,
+  #[serde(default)]
+  pub nanos: u8,
   /// Checks made before stamping in this step (0..3 repeated checks of older stamps exercise caching of results).
   pub rechecks: u8,
 }
@@ -267,7 +286,8 @@ pub struct FStep {
 #[derive(Clone, Debug, Serialize, Deserialize, PartialEq, Eq, Hash)]
 pub struct FSeq { pub ck: FCk, pub steps: Vec<FStep> }
 
-fn aspect_differs(ck: FCk, a: &(PState, u32, usize), b: &(PState, u32, usize)) -> Option<bool> {
+type Snap = (PState, Option<(i64, u32)>, usize);
+fn aspect_differs(ck: FCk, a: &Snap, b: &Snap) -> Option<bool> {
   let ex1 = !matches!(a.0, PState::Absent);
   let ex2 = !matches!(b.0, PState::Absent);
   match ck {
@@ -288,8 +308,8 @@ where C::Stamp: PartialEq + std::fmt::Debug, C::Error: std::fmt::Debug {
   let io = |e: std::io::Error| Failure::new(format!("harness io error: {}", e));
   let dbg = |e: C::Error| Failure::new(format!("checker returned an error on a valid state: {:?}", e));
   // (state, mtime, generation) at the time each stamp was taken
-  let mut stamps: Vec<((PState, u32, usize), C::Stamp)> = vec![];
-  let mut cur: (PState, u32, usize) = (PState::Absent, 0, 0);
+  let mut stamps: Vec<(Snap, C::Stamp)> = vec![];
+  let mut cur: Snap = (PState::Absent, None, 0);
   clear(path);
   for (j, step) in seq.steps.iter().enumerate() {
     let mut via_writer: Option<C::Stamp> = None;
@@ -300,12 +320,12 @@ where C::Stamp: PartialEq + std::fmt::Debug, C::Error: std::fmt::Debug {
           let mut w = path.write(st.state()).map_err(|e| Failure::new(format!("PathBuf::write failed: {:?}", e)))?;
           w.write_all(&content(*len, *seed)).map_err(io)?;
           w.flush().map_err(io)?;
-          filetime::set_file_mtime(path, FileTime::from_unix_time(1_600_000_000 + step.mtime as i64, 0)).map_err(io)?;
+          filetime::set_file_mtime(path, ft(step.mtime, step.nanos)).map_err(io)?;
           via_writer = Some(c.stamp_writer(path, w).map_err(dbg)?);
         }
-        other => establish(path, other, step.mtime).map_err(io)?,
+        other => establish(path, other, ft(step.mtime, step.nanos)).map_err(io)?,
       }
-      cur = (to.clone(), step.mtime, j + 1);
+      cur = (to.clone(), stored_mtime(path), j + 1);
     }
     // Every earlier stamp, checked in the current state (repeatedly: results must not depend on earlier checks).
     for round in 0..=(step.rechecks % 3) as usize {
@@ -315,7 +335,7 @@ where C::Stamp: PartialEq + std::fmt::Debug, C::Error: std::fmt::Debug {
           Some(e) => {
             if e { stats.class("seq_check_expected_inconsistent"); } else { stats.class("seq_check_expected_consistent"); }
             if got != e {
-              return Err(Failure::new(format!("{:?} step {} (check round {}): stamp #{} taken in {:?} (mtime {}), path now {:?} (mtime {}): inconsistent={} but the observed aspect {}", seq.ck, j, round, i, then.0, then.1, cur.0, cur.1, got, if e { "differs" } else { "is the same" })));
+              return Err(Failure::new(format!("{:?} step {} (check round {}): stamp #{} taken in {:?} (mtime {:?}), path now {:?} (mtime {:?}): inconsistent={} but the observed aspect {}", seq.ck, j, round, i, then.0, then.1, cur.0, cur.1, got, if e { "differs" } else { "is the same" })));
             }
           }
           None => stats.class("seq_check_without_claim"),
@@ -348,15 +368,15 @@ pub fn check_seq(seq: &FSeq, stats: &mut Stats) -> CheckResult {
 }
 
 pub fn seq_strategy() -> impl Strategy<Value=FSeq> {
-  let step = (proptest::option::weighted(0.8, pstate()), 0u32..3, 0u8..3, any::<u16>()).prop_map(|(to, mtime, rechecks, sel)| (FStep { to, mtime, rechecks }, sel));
+  let step = (proptest::option::weighted(0.8, pstate()), 0u32..2, 0u8..5, 0u8..3, any::<u16>()).prop_map(|(to, mtime, nanos, rechecks, sel)| (FStep { to, mtime, nanos, rechecks }, sel));
   (prop_oneof![Just(FCk::Exists), Just(FCk::Modified), Just(FCk::Hash), Just(FCk::Hash)], proptest::collection::vec(step, 2..=6)).prop_map(|(ck, raw)| {
     // Bias: a file step is often followed by a same-length content change with the same mtime; a directory step by a re-split listing.
     let mut steps: Vec<FStep> = vec![];
     for (mut st, sel) in raw {
       if sel % 3 == 0 {
-        if let Some(prev) = steps.iter().rev().find_map(|p| p.to.clone().map(|t| (t, p.mtime))) {
+        if let Some(prev) = steps.iter().rev().find_map(|p| p.to.clone().map(|t| (t, (p.mtime, p.nanos)))) {
           match prev {
-            (PState::File { len, seed }, mt) if len > 0 => { st.to = Some(PState::File { len, seed: (seed + 1 + (sel / 3 % 3) as u8) % 4 }); if sel % 2 == 0 { st.mtime = mt; } }
+            (PState::File { len, seed }, mt) if len > 0 => { st.to = Some(PState::File { len, seed: (seed + 1 + (sel / 3 % 3) as u8) % 4 }); if sel % 2 == 0 { st.mtime = mt.0; st.nanos = mt.1; } }
             (PState::Dir { names }, _) if !names.is_empty() => { st.to = Some(PState::Dir { names: resplit(&names, sel / 3, sel % 2 == 0) }); }
             _ => {}
           }
@@ -378,7 +398,7 @@ pub fn replay(path: &Path) -> Result<CheckResult, String> {
 }
 
 pub fn run(tier: Tier, seed: u64) -> i32 {
-  let rule = "proptest-generated (state when stamped, state when checked, checker) over a real temp directory: states = absent / file of size 0,1,8191,8192,8193,16384,65537 or random <100k with pseudo-random bytes / directory whose entry names are drawn from strings over {a,b,c} of length 1-3 (so concatenations collide); modification times set explicitly (filetime), equal or seconds apart; oracle: stamp(path) = stamp_reader(fresh reader) = stamp_writer(writer just used through Resource::write); check vs fresh stamp consistent; after stamp_reader the full content is readable (also through a task under Pie); after moving to the second state check is inconsistent iff the observed aspect differs (existence; existence or mtime; absent<->present, file content, directory name set - file<->directory and same names re-created are not asserted); PathBuf::write truncates/creates files and refuses directories; a quarter of the file pairs change the content but keep length (and often mtime). Second search: sequences of 2-6 steps (new state or leave untouched) on ONE Pie instance / resource state: in every step all earlier stamps are checked (1-3 rounds) against the current state with the same oracle, then the state is stamped through path, fresh reader and - for files written through Resource::write - the writer, which must agree; non-trivial = the two states differ, or file >= 8 KiB buffer, or directory with >=2 entries (pairs), >=2 state changes (sequences); distinct by case hash";
+  let rule = "proptest-generated (state when stamped, state when checked, checker) over a real temp directory: states = absent / file of size 0,1,8191,8192,8193,16384,65537 or random <100k with pseudo-random bytes / directory whose entry names are drawn from strings over {a,b,c} of length 1-3 (so concatenations collide); modification times set explicitly (filetime) with whole-second and sub-second parts (0, 1 ns, 0.5 s, 999999999 ns), equal, within one second or seconds apart (the expectation uses the times the filesystem actually stored); oracle: stamp(path) = stamp_reader(fresh reader) = stamp_writer(writer just used through Resource::write); check vs fresh stamp consistent; after stamp_reader the full content is readable (also through a task under Pie); after moving to the second state check is inconsistent iff the observed aspect differs (existence; existence or mtime; absent<->present, file content, directory name set - file<->directory and same names re-created are not asserted); PathBuf::write truncates/creates files and refuses directories; a quarter of the file pairs change the content but keep length (and often mtime). Second search: sequences of 2-6 steps (new state or leave untouched) on ONE Pie instance / resource state: in every step all earlier stamps are checked (1-3 rounds) against the current state with the same oracle, then the state is stamped through path, fresh reader and - for files written through Resource::write - the writer, which must agree; non-trivial = the two states differ, or file >= 8 KiB buffer, or directory with >=2 entries (pairs), >=2 state changes (sequences); distinct by case hash";
   let mut report = Report::new("C13", tier, seed, "exploration", rule);
   let known = Known::load("C13");
   super::prologue(&mut report, &known);
